@@ -26,7 +26,7 @@ ID = 'C12'
 TITLE = 'Index is a persistent insertion-ordered dictionary'
 COQ_PROP = 'C12'
 LEVEL = 'proof'
-TRANSLATE = ['persistent', 'disk', 'sql']     # disk: Disk.store / Disk.fetch carry every Index value (text, bytes, pickle; inline and file);
+TRANSLATE = ['persistent', 'disk', 'sql', 'fanout', 'django']     # disk: Disk.store / Disk.fetch carry every Index value (text, bytes, pickle; inline and file);
                                               # sql: the loop of Cache.get's lock-free path (Gen_Sql.get_retries_after_missing_file = IndexConc.repaired)
 TRUSTED = [
     'collections.OrderedDict is the oracle of the sequential monitor',
